@@ -184,10 +184,10 @@ func c16Streams(run *Run, rng *rand.Rand, id string, cases int) {
 // ---- isolation ----
 
 type c16Case struct {
-	Recv     string `json:"receiver_label"`
-	Skip     bool   `json:"skip_inbound_check"`
-	Carried  string `json:"carried"` // "none" | label value
-	Enc      bool   `json:"encrypted"`
+	Recv    string `json:"receiver_label"`
+	Skip    bool   `json:"skip_inbound_check"`
+	Carried string `json:"carried"` // "none" | label value
+	Enc     bool   `json:"encrypted"`
 }
 
 // effect of one batch of traffic on V
@@ -350,7 +350,7 @@ func TestC16(t *testing.T) {
 		run.Journal("codec/packets", "")
 		c16Packets(run, run.RNG("codec/packets"), "codec/packets")
 	}
-	for k := 0; k < run.Pick(8, 64); k++ {
+	for k := 0; k < run.Pick(8, 256); k++ {
 		id := fmt.Sprintf("codec/streams/%d", k)
 		if !run.Mine(k) || !run.Want(id) {
 			continue
